@@ -2,6 +2,7 @@ import RactorModel.Lemmas.AdmissionCore
 import RactorModel.Lemmas.AdmissionLate
 import RactorModel.Lemmas.AdmissionIds
 import RactorModel.Lemmas.AdmissionQueue
+import RactorModel.Lemmas.AdmissionOrder
 
 /-!
 The run-time oracle `Obs.violations` (Model/Admission.lean) holds of every end state of the model:
@@ -43,10 +44,12 @@ structure Reach (g : G) : Prop where
   late : LateInv g
   ids : ∀ i, IdInv i g
   q : QInv g.sh
+  ord : ∀ m1 m2, OrdInv m1 m2 g
 
 theorem reach_run (progs : List (List Op)) (sched : List Tid) : Reach (run (init progs) sched) :=
   ⟨inv_run _ sched (inv_init progs), lateInv_run _ sched (lateInv_init progs),
-   fun i => idInv_run i _ sched (idInv_init i progs), qinv_run _ sched (qinv_init progs)⟩
+   fun i => idInv_run i _ sched (idInv_init i progs), qinv_run _ sched (qinv_init progs),
+   fun m1 m2 => ordInv_run m1 m2 _ sched (idInv_init m1 progs) (idInv_init m2 progs) (ordInv_init m1 m2 progs)⟩
 
 /-- `closed` and no op in flight: the marker bit is set (C07 (5), state form). -/
 theorem Reach.marker_of_closed {g : G} (R : Reach g) (hq : cnt Frame.active g = 0)
@@ -141,6 +144,34 @@ theorem violations_nil {g : G} (R : Reach g) (he : endState g = true) : (obsOf g
         have : 0 < g.sh.handled.count r.id := by rw [Q.handled_eq, count_msgIds]; omega
         simpa using List.count_pos_iff.mp this
     · rfl
+  have cOrd : g.sh.rets.all (fun r2 => !r2.isOkSend || r2.seenOk.all (fun m1 => orderedIn m1 r2.id g.sh.handled)) = true := by
+    rw [List.all_eq_true]
+    intro r2 hr2
+    cases hok : r2.isOkSend
+    · rfl
+    · simp only [Bool.not_true, Bool.false_or]
+      rw [List.all_eq_true]
+      intro m1 hm1
+      simp only [Ret.isOkSend, Ret.isSend, Bool.and_eq_true] at hok
+      have hO := R.ord m1 r2.id
+      have hpos : 0 < cnt (Frame.after m1 r2.id) g + g.sh.rets.countP (Ret.after m1 r2.id) := by
+        have : 0 < g.sh.rets.countP (Ret.after m1 r2.id) :=
+          List.countP_pos_iff.mpr ⟨r2, hr2, by
+            have hk := hok.1
+            simp only [Ret.after, Bool.and_eq_true, beq_self_eq_true, List.contains_eq_mem, decide_eq_true_eq]
+            exact ⟨⟨hk, trivial⟩, hm1⟩⟩
+        omega
+      have hokpos : 0 < g.sh.rets.countP (Ret.okFor r2.id) :=
+        List.countP_pos_iff.mpr ⟨r2, hr2, by
+          simp only [Ret.okFor, beq_self_eq_true, Bool.true_and, Bool.and_eq_true]; exact hok⟩
+      have h2 := (R.ids r2.id).oks
+      have h1 := (R.ids r2.id).one
+      have hbef := hO.ord hpos (by omega)
+      rw [Q.conserve, List.append_assoc] at hbef
+      rw [Q.handled_eq]
+      apply orderedIn_of_before m1 r2.id (hO.ne hpos) _ _ _ hbef
+      rw [← List.append_assoc, ← Q.conserve]
+      omega
   have c4 : g.sh.rets.all (fun r => !(r.isSend && r.late) || r.res == .sendErr) = true := by
     rw [List.all_eq_true]
     intro r hr
@@ -208,7 +239,7 @@ theorem violations_nil {g : G} (R : Reach g) (he : endState g = true) : (obsOf g
         · rw [hm] at h1; simp at h1; omega
         · rfl
       simp [(I.marker_imp hm).1]
-  simp only [Obs.violations, obsOf, c1, c2, c3, c4, c5, c6, hdr, c8, c9, ↓reduceIte, List.append_nil,
-    decide_true, beq_self_eq_true]
+  simp only [Obs.violations, obsOf, c1, c2, c3, cOrd, c4, c5, c6, hdr, c8, c9, ↓reduceIte, List.append_nil,
+    beq_self_eq_true]
 
 end Admission
